@@ -22,6 +22,7 @@ import (
 	"github.com/conduitio/conduit/pkg/connector"
 	"github.com/conduitio/conduit/pkg/foundation/log"
 	"github.com/conduitio/conduit/pkg/pipeline"
+	connectorPlugin "github.com/conduitio/conduit/pkg/plugin/connector"
 	"github.com/conduitio/conduit/pkg/processor"
 	"github.com/conduitio/conduit/pkg/verifkit"
 	"github.com/conduitio/conduit/pkg/verifkit/fakes"
@@ -144,6 +145,14 @@ func compareProcessor(a, b *processor.Instance) []string {
 }
 
 // restartAndCompare boots fresh services from the store content and compares every entity.
+// noPlugins is a plugin dispenser fetcher without plugins (deleting a connector then only logs that it could not run
+// the plugin's delete hook).
+type noPlugins struct{}
+
+func (noPlugins) NewDispenser(log.CtxLogger, string, string) (connectorPlugin.Dispenser, error) {
+	return nil, fmt.Errorf("verif: no plugins")
+}
+
 func restartAndCompare(s *services) ([]string, error) {
 	ctx := context.Background()
 	r, err := boot(s.db.Content())
@@ -576,6 +585,31 @@ func TestVerifC17OldFormats(t *testing.T) {
 					// and the migrated record must itself survive the next restart unchanged
 					if d2, err := restartAndCompare(s); err != nil || len(d2) > 0 {
 						rep.AddViolation(verifkit.Violation{Key: "C17/old-format-second-restart", Text: fmt.Sprintf("migrated connector (%s) changes on the next restart: %v %v", key, err, d2), Replay: map[string]any{"case": key}})
+					}
+					// ... and so must changes made AFTER the migration: the legacy record has to be gone, or the next restart
+					// migrates it again over the current one
+					if _, err := s.conn.Update(ctx, id, "builtin:file", connector.Config{Name: "name-" + id, Settings: map[string]string{"after": "migration-日本"}}); err != nil {
+						rep.AddViolation(verifkit.Violation{Key: "C17/old-format-update-fails", Text: fmt.Sprintf("migrated connector (%s) cannot be updated: %v", key, err), Replay: map[string]any{"case": key}})
+					}
+					var newState any = connector.SourceState{Position: []byte{0x00, 0xff, 'p', '2'}}
+					if typ == "Destination" {
+						newState = connector.DestinationState{Positions: map[string]opencdc.Position{"src": []byte{0x00, 0xff, 'p', '2'}}}
+					}
+					if _, err := s.conn.SetState(ctx, id, newState); err != nil {
+						rep.AddViolation(verifkit.Violation{Key: "C17/old-format-setstate-fails", Text: fmt.Sprintf("migrated connector (%s): SetState fails: %v", key, err), Replay: map[string]any{"case": key}})
+					}
+					rep.Transitions(2)
+					if d3, err := restartAndCompare(s); err != nil || len(d3) > 0 {
+						rep.AddViolation(verifkit.Violation{Key: "C17/old-format-change-lost-on-restart", Text: fmt.Sprintf("migrated connector (%s): a settings / position change made after the migration is not what a restarted server reads back: %v %v", key, err, d3), Replay: map[string]any{"case": key}})
+					}
+					// a connector deleted after the migration stays deleted
+					if err := s.conn.Delete(ctx, id, noPlugins{}); err == nil {
+						rep.Transitions(1)
+						if r, rerr := boot(s.db.Content()); rerr == nil {
+							if _, gerr := r.conn.Get(ctx, id); gerr == nil {
+								rep.AddViolation(verifkit.Violation{Key: "C17/old-format-deleted-connector-resurrected", Text: fmt.Sprintf("migrated connector (%s) was deleted but exists again after a restart", key), Replay: map[string]any{"case": key}})
+							}
+						}
 					}
 					rep.Outcome("migrated")
 					if n == 5 {
